@@ -234,9 +234,12 @@ def apply_op(W, op, step):
             ptr = None
             id_ = L().shim13_call(0, None, b, b"Create", 0, None)
         expect(id_ >= 0, "create", "create returned %d" % id_)
-        expect(id_ > W.max_id, "id_unique", "new id %d is not greater than every id issued before (max %d): ids must never be reused" % (id_, W.max_id))
-        W.max_id = id_
+        # register first: the instance must be cleaned up even when the id oracle fails (a leaked instance would
+        # change what later cases of this process see and make the shrunk case irreproducible)
+        prev_max = W.max_id
+        W.max_id = max(W.max_id, id_)
         W.insts.append({"id": id_, "ptr": ptr, "alive": True, "model": Model(id_)})
+        expect(id_ > prev_max, "id_unique", "new id %d is not greater than every id issued before (max %d): ids must never be reused" % (id_, prev_max))
         return id_
     if kind == "bad":
         W.saw_bad = True
